@@ -38,6 +38,62 @@ def rule_tpi(ctx):
                        "t branch returns the result of _wye_delta", fi.loc(n))
     if not found:
         ctx.fail("_calc_r_x_y_from_dataframe: trafo_model dispatch not found")
+    # the T->pi conversion divides by the magnetising admittance g + jb: the rows it converts are those where g or b is not zero
+    fw = ctx.repo.func("pandapower.build_branch:_wye_delta")
+    tid = [n for n in ast.walk(fw.node) if isinstance(n, ast.Assign) and isinstance(n.targets[0], ast.Name) and n.targets[0].id == "tidx"]
+    if len(tid) != 1:
+        ctx.fail("_wye_delta: row mask tidx not found")
+    nm = {x.id for x in ast.walk(tid[0].value) if isinstance(x, ast.Name)}
+    ok = {"g", "b"} <= nm and any(isinstance(x, ast.BinOp) and isinstance(x.op, ast.BitOr) for x in ast.walk(tid[0].value))
+    ctx.ob(R, "pandapower.build_branch::_wye_delta::converted-rows", ok,
+           "rows with g != 0 or b != 0 are converted" if ok else
+           f"`tidx = {ast.unparse(tid[0].value)}`: transformers whose magnetising branch has only a conductance (or only a susceptance) keep "
+           "the T-model values in the pi-model columns", fw.loc(tid[0]))
+
+
+def rule_shift_direction(ctx):
+    """tap changers on the lv side turn the phase the other way: inside the loops `for side, vn, direction in [("hv", vnh, 1),
+    ("lv", vnl, -1)]` every contribution to the phase shift carries the factor `direction` (sibling agreement of the two
+    alternatives of the ideal phase shifter and of the two generations of the code)"""
+    R = "SHIFT-DIRECTION"
+    ctx.rule(R, "every term added to trafo_shift inside a loop over (side, vn, direction) contains the factor `direction` - in both "
+                "alternatives of an np.where as well")
+    fi = ctx.repo.func("pandapower.build_branch:_calc_tap_from_dataframe")
+    n = 0
+    for loop in ast.walk(fi.node):
+        if not (isinstance(loop, ast.For) and isinstance(loop.target, ast.Tuple) and any(isinstance(e, ast.Name) and e.id == "direction" for e in loop.target.elts)):
+            continue
+        pairs = None
+        try:
+            pairs = [(ast.literal_eval(t.elts[0]), ast.literal_eval(t.elts[2])) for t in loop.iter.elts]
+        except Exception:
+            pass
+        ok_pairs = pairs is not None and dict(pairs) == {"hv": 1, "lv": -1}
+        ctx.ob(R, f"pandapower.build_branch::_calc_tap_from_dataframe::loop{n}:pairs", ok_pairs,
+               "hv taps count +1, lv taps -1" if ok_pairs else f"side/direction pairs are {pairs}", fi.loc(loop))
+        for st in ast.walk(loop):
+            if isinstance(st, ast.AugAssign) and "trafo_shift" in ast.unparse(st.target):
+                v = st.value
+                alts = [v]
+                if isinstance(v, ast.Call) and isinstance(v.func, ast.Attribute) and v.func.attr == "where" and len(v.args) == 3:
+                    alts = [v.args[1], v.args[2]]
+                for k, a in enumerate(alts):
+                    n += 1
+                    has = any(isinstance(x, ast.Name) and x.id == "direction" for x in ast.walk(a))
+                    if not has and isinstance(a, ast.Name):
+                        # a value prepared in both branches of `if direction == 1: ... else: ...` (or a test on `side`)
+                        for cond in ast.walk(loop):
+                            if isinstance(cond, ast.If) and {"direction", "side"} & {x.id for x in ast.walk(cond.test) if isinstance(x, ast.Name)} and cond.orelse:
+                                in_then = any(isinstance(y, ast.Assign) and any(isinstance(t, ast.Name) and t.id == a.id for t in y.targets) for b in cond.body for y in ast.walk(b))
+                                in_else = any(isinstance(y, ast.Assign) and any(isinstance(t, ast.Name) and t.id == a.id for t in y.targets) for b in cond.orelse for y in ast.walk(b))
+                                if in_then and in_else:
+                                    has = True
+                    ctx.ob(R, f"pandapower.build_branch::_calc_tap_from_dataframe::{ast.unparse(st.target)[:40]}:{n}", has,
+                           "the shift contribution carries the side direction" if has else
+                           f"`{ast.unparse(a)[:90]}` is added to the phase shift without the factor `direction`: a tap changer on the lv side "
+                           "turns the phase the wrong way", fi.loc(st))
+    if n < 6:
+        ctx.fail(f"SHIFT-DIRECTION: only {n} shift contributions found inside direction loops (confirmed: 6)")
 
 
 def run(ctx):
@@ -52,6 +108,10 @@ def run(ctx):
               aspects=("units", "base", "par", "vm", "dec", "needs"))
     ctx.require_min(R, 110)
     rule_tpi(ctx)
+    rule_shift_direction(ctx)
+    from rules import _lints
+    _lints.dup_sweep(ctx, "DUP-OPERAND", ["pandapower.pypower.makeYbus", "pandapower.pf.makeYbus_numba", "pandapower.build_branch",
+                                         "pandapower.results_branch", "pandapower.pypower.makeBdc"], minimum=10)
 
 
 def variants(repo):
@@ -60,6 +120,9 @@ def variants(repo):
     bu = "pandapower/build_bus.py"
     V = Variant
     return [
+        V("ideal phase shifter percent form without direction", bb, in_function("_calc_tap_from_dataframe", replace_once("(direction * 2 * np.rad2deg(np.arcsin(tap_diff[mask_ideal] *", "(2 * np.rad2deg(np.arcsin(tap_diff[mask_ideal] *")), "SHIFT-DIRECTION"),
+        V("wye delta only for rows with susceptance", bb, in_function("_wye_delta", replace_once("tidx = (g != 0) | (b != 0)", "tidx = b != 0")), "converted-rows"),
+        V("asymmetry guard tests r twice", "pandapower/pypower/makeYbus.py", replace_once("if any(branch[:, BR_R_ASYM]) or any(branch[:, BR_X_ASYM]):", "if any(branch[:, BR_R_ASYM]) or any(branch[:, BR_R_ASYM]):"), "DUP-OPERAND"),
         V("line c scale", bb, replace_once('line["c_nf_per_km"].values * 1e-9', 'line["c_nf_per_km"].values * 1e-6'), "line:store:ppc.branch.BR_B"),
         V("line g scale", bb, replace_once('line["g_us_per_km"].values * 1e-6', 'line["g_us_per_km"].values * 1e-9'), "line:store:ppc.branch.BR_G"),
         V("line r parallel", bb, replace_once('line["r_ohm_per_km"].values * length_km / baseR / parallel', 'line["r_ohm_per_km"].values * length_km / baseR'), "line:store:ppc.branch.BR_R"),
